@@ -246,6 +246,61 @@ def stale_match_reelection(repo, seed):
     return sim, _finish(sim, watch, acked), None
 
 
+def truncated_then_committed(repo, seed):
+    """An entry removed from ITS SUBMITTER's log can still be committed later from another node's copy: 5 voters.
+    Term 1: leader a appends X (callback waiting on a), only b receives it.  Term 2: c (votes of d, e) writes its no-op at
+    the same position, which reaches a only: a truncates X.  c dies.  Term 3: b (votes of d, e) replicates and commits
+    X everywhere — also back onto a.  The callback of X may say SUCCESS (with X's own result) or nothing, never a
+    failure that promises "not applied"."""
+    ids = ["a", "b", "c", "d", "e"]
+    sim = Sim(repo, ids, seed=seed, conf={"raftMinTimeout": 0.5, "raftMaxTimeout": 0.5625, "leaderFallbackTimeout": 30.0})
+    watch = _watchers(sim)
+    sim.connect_all()
+    if not _elect(sim, "a", ids):
+        return sim, [], "a not elected"
+    _among(sim, ids, 4, tickers=["a"])
+    watch.step()
+    for y in ("c", "d", "e"):
+        sim.disconnect("a", y)
+    sim.disconnect("b", "c")
+    sim.submit("a", "X")
+    for _ in range(3):
+        sim.tick("a", 0.125)
+        sim.deliver_all(among={"a", "b"})
+    watch.step()
+    if sim.last_index("b") < 3:
+        return sim, [], "b did not get X"
+    sim.cut("a", "b")                       # silent: a keeps leading, b keeps X
+    if not _elect_votes_only(sim, "c", ["c", "d", "e"]):
+        return sim, [], "c not elected"
+    sim.connect("a", "c")
+    for _ in range(4):
+        sim.tick("c", 0.0625)
+        sim.chan[("c", "d")].clear()
+        sim.chan[("c", "e")].clear()
+        while sim.deliver("c", "a"):
+            pass
+        while sim.deliver("a", "c"):
+            pass
+    watch.step()
+    la = sim.log_of("a")
+    if not (len(la) >= 3 and la[2][1] == sim.objs["c"].raftCurrentTerm):
+        return sim, [], "a did not take c's entry"
+    early = [c for c in sim.callbacks]
+    _isolate(sim, "c")
+    sim.notice("a", "b")
+    sim.notice("b", "a")
+    sim.connect("a", "b")
+    if not _elect(sim, "b", ["b", "d", "e"]):
+        return sim, _finish(sim, watch), "b not elected"
+    _among(sim, ["a", "b", "d", "e"], 24)
+    watch.step()
+    v = _finish(sim, watch, _acked(sim))
+    if not any(x == "X" for (_, x) in sim.execs["a"]):
+        return sim, v, "X was not committed in the end"
+    return sim, v, None
+
+
 def longer_older_log(repo, seed):
     sim = Sim(repo, ["a", "b", "c"], seed=seed,
               conf={"raftMinTimeout": 0.5, "raftMaxTimeout": 0.5625, "leaderFallbackTimeout": 1.0})
@@ -361,7 +416,7 @@ def stale_tail_snapshot(repo, seed):
     return sim, v, None
 
 
-SCENARIOS = [("stale_tail_snapshot", stale_tail_snapshot), ("figure8", figure8), ("stale_match_reelection", stale_match_reelection), ("longer_older_log", longer_older_log), ("even_split", even_split),
+SCENARIOS = [("stale_tail_snapshot", stale_tail_snapshot), ("figure8", figure8), ("stale_match_reelection", stale_match_reelection), ("truncated_then_committed", truncated_then_committed), ("longer_older_log", longer_older_log), ("even_split", even_split),
              ("double_vote", double_vote)]
 
 
